@@ -53,6 +53,21 @@ Definition world_of (w : wobs) : world := MkW (wo_fs w) (wo_ks w).
 Definition after (w : wobs) (s : step) : wobs :=
   MkWO (apply_delta (wo_fs w) (s_delta s)) (MkKS (s_ktab s) (s_nextid s) (s_nextdev s)).
 
+(* what a property predicate may look at: one step as seen from outside *)
+Record sview := MkV {
+  v_env : env; v_cmd : command; v_users : users_map;
+  v_res : rclass; v_log : list op; v_after : wobs; v_layers : option (list lobs) }.
+Definition view_of_obs (w : wobs) (s : step) : sview :=
+  MkV (s_env s) (s_cmd s) (s_users s) (s_res s) (s_oplog s) (after w s) (option_map sort_lobs (s_layers s)).
+(* the same view of what the MODEL does from world w *)
+Definition view_of_model (c : cfgT) (w : wobs) (e : env) (cmd : command) (um : users_map) : sview :=
+  let '(o, st) := run e c um cmd (world_of w) in
+  MkV e cmd um (rclass_of o) (rev (s_log st)) (MkWO (w_fs (s_w st)) (w_ks (s_w st)))
+      (match o with
+       | Ret (Some ld) => Some (sort_lobs (map lobs_of (ld_map ld)))
+       | _ => None
+       end).
+
 (* model of one step, projected on the observables *)
 Record sres := MkSR { r_class : rclass; r_log : list op; r_fs : fsT; r_ks : kstate; r_layers : option (list lobs) }.
 Definition model_step (c : cfgT) (w : wobs) (s : step) : sres :=
@@ -100,6 +115,9 @@ Fixpoint along (P : wobs -> step -> bool) (w : wobs) (ss : list step) : bool :=
   | [] => true
   | s :: r => P w s && along P (after w s) r
   end.
+
+Definition along_views (P : wobs -> sview -> bool) (w : wobs) (ss : list step) : bool :=
+  along (fun w s => P w (view_of_obs w s)) w ss.
 
 Definition w0 (c : case) : wobs := MkWO (c_fs0 c) (c_ks0 c).
 Definition corr (c : case) : bool := along (step_corr (c_cfg c)) (w0 c) (c_steps c).
@@ -229,9 +247,8 @@ Fixpoint subseq (a b0 : list bytes) : bool :=       (* a is a subsequence of b0 
 
 Definition plain_env (e : env) : bool :=
   negb (e_pretend e) && match e_fault e with NoFault => true | _ => false end.
-Definition unchanged (w : wobs) (s : step) : bool :=
-  match d_removed (s_delta s), d_upsert (s_delta s) with [], [] => true | _, _ => false end
-  && ktab_beq (s_ktab s) (ks_tab (wo_ks w)).
+Definition unchanged (w : wobs) (v : sview) : bool :=
+  fs_beq (wo_fs w) (wo_fs (v_after v)) && ktab_beq (ks_tab (wo_ks (v_after v))) (ks_tab (wo_ks w)).
 
 (* busy in the three ways the properties name *)
 Definition overlain_by_mount (c : cfgT) (tab : list kline) (x : layer) : bool :=
